@@ -32,6 +32,7 @@ fn main() {
         let line = line.unwrap();
         let r = std::panic::catch_unwind(std::panic::AssertUnwindSafe(|| match mode.as_str() {
             "c19host" => c19::c19host(&line),
+            "c19uri" => c19::c19uri(&line),
             "c19info" => c19::c19info(&line),
             "c19conn" => rt.block_on(c19::c19conn(&line)),
             "c19tls" => rt.block_on(c19::c19tls(&line, pki.as_ref().unwrap())),
